@@ -5,7 +5,7 @@
 set -e
 base=/tmp/vfscratch
 case "$1" in
-  new) mkdir -p $base; rsync -a --delete --exclude .git /repo/ $base/$2/; echo $base/$2;;
+  new) mkdir -p $base; rsync -a --delete --exclude .git --exclude __pycache__ /repo/ $base/$2/; echo $base/$2;;
   rm) rm -rf $base/$2;;
   *) echo "usage: $0 new|rm <name>"; exit 2;;
 esac
